@@ -50,7 +50,7 @@ def histories(tier):
     return itertools.product(LEVELS, repeat=L)
 
 
-def hist_spec(dt, D, hist, extra, ainit):
+def hist_spec(dt, D, hist, extra, ainit, dfn=False):
     n = max(1, refsim.nsteps(D / dt))
     steps = len(hist) + n + 2
     start = simspace.START
@@ -70,6 +70,11 @@ def hist_spec(dt, D, hist, extra, ainit):
         spec["links"].append(["a", "c", "ex"])
         spec["characs"][0]["comps"].append("c")
     spec["timed"] = dict(struct="history", D=D, extra=extra, ainit=ainit, hist=list(hist))
+    if dfn:
+        # the duration is the value of a function (2 * half); the databook entry of the duration itself says something else
+        spec["pars"][0] = dict(name="dur", fmt="duration", val=D * 3 + dt, fn="2*half", timed=True)
+        spec["pars"].append(dict(name="half", fmt="number", val=D / 2))
+        spec["timed"]["dfn"] = True
     return spec
 
 
@@ -81,6 +86,11 @@ def cases(tier):
                 for ainit in (0.0, 60.0):
                     for h in histories(tier):
                         yield hist_spec(dt, D, h, extra, ainit)
+    # duration defined by a parameter function
+    for dt in dts[:2]:
+        for lab, D in dvariants(dt, tier):
+            for h in histories(tier):
+                yield hist_spec(dt, D, h, 0.3, 60.0, dfn=True)
     yield from simspace.timed(tier)
 
 
